@@ -546,7 +546,12 @@ def install_tawazi_hooks():
             ex.fut_node[fid] = self.id
         REACH["XENTER"] += 1
         tok = cur_token()
-        ev("XENTER", token=tok, node=self.id, fut=None if inline else fid, inline=inline)
+        try:
+            deps = [u.id for u in self.dependencies]
+            meta = dict(deps=deps, is_seq=bool(self.is_sequential), res=str(getattr(self.resource, "value", self.resource)))
+        except Exception:  # noqa: BLE001
+            meta = {}
+        ev("XENTER", token=tok, node=self.id, fut=None if inline else fid, inline=inline, **meta)
         if inline and Settings.controlled and not ex.bypassed and not ex.closed:
             _inline_control(ex)
         prev = getattr(TLS, "node", None)
